@@ -1017,3 +1017,38 @@ def _average_profile(ctx, rule='R09.7') -> List[Ob]:
     return [ok(rule, t, fi.loc(), construct='average_profile') if good else
             violation(rule, t, fi.loc(), key='pyspike/DiscreteFunc.py::average_profile::route',
                       detail=f"steps recognised: {steps}")]
+
+
+# ---------------------------------------------------------------------------------------------
+# rules added after rounds d and P of independent changes (DESIGN.md 11.7): appended to the explanations
+# ---------------------------------------------------------------------------------------------
+_EXITS = (" {rid} every way out of these kernels in front of their merge loop is an obligation of its own: the loop rules speak about the path "
+          "through the loop; an early exit of a piecewise add kernel is decided against the definition of the sum, any other is undecided.")
+_ADDENDA = {
+    'C01': _EXITS.format(rid='R01.9'),
+    'C02': (" R02.8 every local that holds a distance to the nearest spike of the other train is, at each of its definitions, a result of the "
+            "nearest-spike search, a copy of such a local, or the 0 of a shared spike time." + _EXITS.format(rid='R02.9')),
+    'C03': (" R03.6 every returned array of the discrete profile kernels is the prefix [:counter+2] of the scanned array (start entry, every "
+            "recorded event, end entry), also when the slice is part of the return expression." + _EXITS.format(rid='R03.9')),
+    'C04': (" R04.4 also: the selection `indices` is only ever re-bound to an order-preserving copy of itself (a sorted or de-duplicated selection "
+            "flips the sign of pairs listed in descending order)." + _EXITS.format(rid='R04.9')),
+    'C05': (" R05.1 also: the averaging interval reaches the route selection and avrg/integral as the caller gave it (never re-bound)."
+            + _EXITS.format(rid='R05.9')),
+    'C06': _EXITS.format(rid='R06.9'),
+    'C08': _EXITS.format(rid='R08.9'),
+    'C09': (" R09.10 early exits of the add kernels: accepted only when conditioned on a single-piece operand and equal, element by element, to "
+            "the other operand's breakpoints and values plus the piece's value (constant / linear interpolation) at the same point."),
+    'C11': _EXITS.format(rid='R11.9'),
+    'C12': (" R12.6 (=R03.6) the discrete profile kernels return every recorded event (premise of comparing the summed profile with the "
+            "single-pass kernels). Routines without loops that the lock-step comparison cannot align are compared as functions from decisions "
+            "to results: every pair of compatible paths returns the same canonical value and performs the same stores; three-argument "
+            "comparison-only routines are compared on the 13 weak orderings of their arguments."),
+    'C13': (" R13.3 also: nothing but copies lies between the selection of the spikes inside the common interval and the new trains (a value-changing "
+            "step after the duplicates were removed can make two times equal)."),
+    'C14': " R14.2 also: the selection is used in the caller's order (only order-preserving copies of `indices`).",
+    'C16': _EXITS.format(rid='R16.9'),
+    'C17': _EXITS.format(rid='R17.9'),
+    'C18': (" R18.5 also covers R03.6 (trimming of the discrete profiles)." + _EXITS.format(rid='R18.9')),
+}
+for _pid, _txt in _ADDENDA.items():
+    PROPS[_pid]['explanation'] = PROPS[_pid]['explanation'] + _txt
